@@ -94,6 +94,13 @@ pub fn one_capped(sink: &mut Sink, text: &str, items: &str, budget: &Option<Budg
     }
     if d.finish_error.is_some() { sink.count("finish.err"); }
     sink.case(&format!("pump drain {} {} {} {}", b(stop), bt, alias_tok(&limits), items), &dump_tok(&d));
+    // what `finish()` reports to the budget-report callback (counts of the whole run, replayed events included)
+    if budget.is_some() {
+        if let Ok(dr) = catch(|| h::live_events_from_str_with_report(text, budget.clone(), limits, stop, 1_000_000)) {
+            let rep = match (&dr.error, &dr.report) { (None, Some(r)) => format!("rep={}", crate::c07::report_tok(r)), _ => "rep=none".to_string() };
+            sink.case(&format!("pump report {} {} {} {}", b(stop), bt, alias_tok(&limits), items), &rep);
+        }
+    }
     None
 }
 
@@ -212,6 +219,9 @@ fn generate(a: &Args) -> i32 {
     let mut sink = Sink::new(&a.out, "pump");
     let mut texts: Vec<String> = vec![
         "".into(), "~".into(), "a".into(), "---\n".into(), "--- a\n...\n".into(), "a\n...\nb\n".into(), "a\n---\nb\n".into(),
+        // merge keys met while an alias is replayed (budget: merge-key count of the expansion)
+        "base: &a {k: 1}\nmid: &b {<<: *a, x: 2}\ntop: *b\nagain: {<<: *b}\n".into(),
+        "a: &a {<<: {p: 1}, q: 2}\nb: [*a, *a]\nc: {<<: [*a, {r: 3}]}\n".into(),
         "&a \"\"".into(), "&a ''".into(), "- &a \"\"\n- *a\n".into(), "*x".into(), "a: *x\n".into(), "&a [*a]".into(),
         "k: &a 1\n---\nj: *a\n".into(), ">\nfolded\n".into(), "k: >\n  ok\n".into(), "[a, b".into(), "{a: 1".into(), "a: b: c".into(),
         "--- >\nx\n".into(), "- !!str &a x\n- !custom *a\n".into(), "? [a, b]\n: &m {c: d}\n<<: *m\n".into(),
